@@ -399,7 +399,7 @@ theorem SM.write_hits_one (m : SM) (ha : m.Adm) (d : Raw) (act : Bool) (i j k v 
     exact (Option.some.inj href).symm
   by_cases hp' : InPattern m.e i' j'
   · rw [(m.get_eq _ i' j').1 hp', (m.get_eq d i' j').1 hp']
-    simp only [Raw.set, hk]
+    simp only [Raw.set_apply, hk]
     by_cases hc : (i' = i ∧ j' = j) ∨ (isSymm m.e = true ∧ i' = j ∧ j' = i)
     · rw [if_pos hc]
       rcases hc with ⟨rfl, rfl⟩ | ⟨hs, rfl, rfl⟩
@@ -615,7 +615,7 @@ theorem SM.assignRow_miss (m : SM) (vals : List Int) : ∀ (idx stride : Int) (d
     intro idx stride d k h
     rw [SM.assignRow, ih]
     · have h0 := h 0 (by simp)
-      simp only [Raw.set]
+      simp only [Raw.set_apply]
       rw [if_neg]
       intro hk; apply h0; rw [hk]; simp
     · intro t ht
@@ -633,7 +633,7 @@ theorem SM.assignRow_hit (m : SM) (vals : List Int) : ∀ (idx stride : Int) (d 
     cases t0 with
     | zero =>
       rw [m.assignRow_miss]
-      · simp [Raw.set]
+      · simp [Raw.set_apply]
       · intro t ht
         have := hinj (t + 1) (by simp; omega) (by omega)
         intro hk; apply this; rw [← hk]; push_cast; ring
@@ -755,5 +755,234 @@ theorem SM.assign_view (m : SM) (ha : m.Adm) (rhs : RExpr) (hr : rhs.AllAdm) (d 
     exact h1 i j hi0 hi hj0 hj hc
   · rw [(m.get_eq _ i j).1 (symm_all_pattern _ hs i j), index_mirror m.e hs]
     exact h1 j i hj0 hj hi0 hi hc
+
+/-! ### self-referential statements: right-hand sides that read the target's own storage -/
+
+/-- raw element `k` is a stored element of the matrix (a position of its pattern inside its dimension) -/
+def SM.Stores (m : SM) (k : Int) : Prop :=
+  ∃ i j : Int, 0 ≤ i ∧ i < m.dim ∧ 0 ≤ j ∧ j < m.dim ∧ InPattern m.e i j ∧ k = m.base + m.e.index i j m.offset
+
+/-- every special-matrix leaf is an admissible object -/
+def AExpr.AllAdm : AExpr → Prop
+  | .sm m _ => m.Adm
+  | .scale a _ => a.AllAdm
+  | .add a b => a.AllAdm ∧ b.AllAdm
+
+/-- every special-matrix leaf has dimension `n` (otherwise `operator=` throws `size_mismatch`) -/
+def AExpr.DimIs : AExpr → Int → Prop
+  | .sm m _, n => m.dim = n
+  | .scale a _, n => a.DimIs n
+  | .add a b, n => a.DimIs n ∧ b.DimIs n
+
+/-- raw element `k` is a stored element of some special-matrix leaf -/
+def AExpr.Stores : AExpr → Int → Prop
+  | .sm m _, k => m.Stores k
+  | .scale a _, k => a.Stores k
+  | .add a b, k => a.Stores k ∨ b.Stores k
+
+/-- raw element `k` lies in the `data_range` of some leaf -/
+def AExpr.InRange : AExpr → Int → Prop
+  | .sm m _, k => m.dataBegin ≤ k ∧ k ≤ m.dataEnd
+  | .scale a _, k => a.InRange k
+  | .add a b, k => a.InRange k ∨ b.InRange k
+
+/-- `data_range` spans every stored element -/
+theorem SM.stores_in_range (m : SM) (ha : m.Adm) (k : Int) (h : m.Stores k) : m.dataBegin ≤ k ∧ k ≤ m.dataEnd := by
+  obtain ⟨i, j, hi0, hi, hj0, hj, hp, rfl⟩ := h
+  have := index_in_range m.e ha.wf m.dim m.offset i j ha.dim_pos ha.off hi0 hi hj0 hj hp
+  simp only [SM.dataBegin, SM.dataEnd]
+  omega
+
+theorem AExpr.stores_in_range (r : AExpr) (hr : r.AllAdm) (k : Int) (h : r.Stores k) : r.InRange k := by
+  induction r with
+  | sm m l => exact m.stores_in_range hr k h
+  | scale a c ih => exact ih hr h
+  | add a b iha ihb =>
+    rcases h with h | h
+    · exact Or.inl (iha hr.1 h)
+    · exact Or.inr (ihb hr.2 h)
+
+/-- if `is_aliased(mem1, mem2)` answers false, no leaf's `data_range` meets `[mem1, mem2]` -/
+theorem AExpr.not_aliased_range (r : AExpr) (mem1 mem2 : Int) (h : r.isAliased mem1 mem2 = false) (k : Int)
+    (hk : r.InRange k) : ¬ (mem1 ≤ k ∧ k ≤ mem2) := by
+  induction r with
+  | sm m l =>
+    simp only [AExpr.isAliased, SM.isAliased, decide_eq_false_iff_not] at h
+    simp only [AExpr.InRange] at hk
+    omega
+  | scale a c ih => exact ih h hk
+  | add a b iha ihb =>
+    simp only [AExpr.isAliased, Bool.or_eq_false_iff] at h
+    rcases hk with hk | hk
+    · exact iha h.1 hk
+    · exact ihb h.2 hk
+
+theorem AExpr.bind_allAdm (r : AExpr) (hr : r.AllAdm) (d : Raw) : (r.bind d).AllAdm := by
+  induction r with
+  | sm m l => exact hr
+  | scale a c ih => exact ih hr
+  | add a b iha ihb => exact ⟨iha hr.1, ihb hr.2⟩
+
+/-- `next_value` after `set_location(i,j)` leaves the cursors where `set_location(i,j+1)` puts them -/
+theorem AExpr.advance_setLocation (r : AExpr) (hr : r.AllAdm) (i j : Int) :
+    (r.setLocation i j).advance = r.setLocation i (j + 1) := by
+  induction r with
+  | sm m l => simp only [AExpr.setLocation, AExpr.advance, m.advance_setLocation hr]
+  | scale a c ih => simp only [AExpr.setLocation, AExpr.advance, ih hr]
+  | add a b iha ihb => simp only [AExpr.setLocation, AExpr.advance, iha hr.1, ihb hr.2]
+
+/-- the value delivered at cursor (i,j) is the value of the expression over the storage as it is at that moment -/
+theorem AExpr.value_setLocation (r : AExpr) (hr : r.AllAdm) (d : Raw) (i j : Int) :
+    (r.setLocation i j).value d = (r.bind d).val i j := by
+  induction r with
+  | sm m l => simp only [AExpr.setLocation, AExpr.value, AExpr.bind, RExpr.val, m.valueAt_setLocation hr]
+  | scale a c ih => simp only [AExpr.setLocation, AExpr.value, AExpr.bind, RExpr.val, ih hr]
+  | add a b iha ihb => simp only [AExpr.setLocation, AExpr.value, AExpr.bind, RExpr.val, iha hr.1, ihb hr.2]
+
+/-- the value at (i,j) depends only on the raw elements inside the leaves' data ranges -/
+theorem AExpr.val_congr (r : AExpr) (hr : r.AllAdm) (n : Int) (hn : r.DimIs n) (d d' : Raw)
+    (h : ∀ k, r.InRange k → d k = d' k) (i j : Int) (hi0 : 0 ≤ i) (hi : i < n) (hj0 : 0 ≤ j) (hj : j < n) :
+    (r.bind d).val i j = (r.bind d').val i j := by
+  induction r with
+  | sm m l =>
+    simp only [AExpr.DimIs] at hn
+    subst hn
+    simp only [AExpr.bind, RExpr.val]
+    by_cases hp : InPattern m.e i j
+    · rw [(m.get_eq d i j).1 hp, (m.get_eq d' i j).1 hp]
+      exact h _ (m.stores_in_range hr _ ⟨i, j, hi0, hi, hj0, hj, hp, rfl⟩)
+    · rw [(m.get_eq d i j).2 hp, (m.get_eq d' i j).2 hp]
+  | scale a c ih =>
+    simp only [AExpr.bind, RExpr.val]
+    rw [ih hr hn h]
+  | add a b iha ihb =>
+    simp only [AExpr.bind, RExpr.val]
+    rw [iha hr.1 hn.1 (fun k hk => h k (Or.inl hk)), ihb hr.2 hn.2 (fun k hk => h k (Or.inr hk))]
+
+/-- the in-place inner loop: as long as no store of this loop hits a raw element that a leaf can read, it stores
+    the values the right-hand side has over the ORIGINAL storage `d0` -/
+theorem SM.assignRowIP_eq (m : SM) (rhs : AExpr) (hr : rhs.AllAdm) (N : Int) (hN : rhs.DimIs N) (d0 : Raw)
+    (i : Int) (hi0 : 0 ≤ i) (hi : i < N) (stride : Int) :
+    ∀ (n : Nat) (j idx : Int) (d : Raw),
+      (∀ t : Nat, t < n → 0 ≤ j + (t : Int) ∧ j + (t : Int) < N) →
+      (∀ k, rhs.InRange k → d k = d0 k) →
+      (∀ t : Nat, t < n → ¬ rhs.InRange (m.base + idx + (t : Int) * stride)) →
+      m.assignRowIP n (rhs.setLocation i j) idx stride d
+        = m.assignRow ((List.range n).map (fun (t : Nat) => (rhs.bind d0).val i (j + (t : Int)))) idx stride d := by
+  intro n
+  induction n with
+  | zero => intro j idx d _ _ _; rfl
+  | succ n ih =>
+    intro j idx d hj hag hmiss
+    have hj0 := hj 0 (by omega)
+    have hv : (rhs.setLocation i j).value d = (rhs.bind d0).val i j := by
+      rw [rhs.value_setLocation hr]
+      exact rhs.val_congr hr N hN d d0 hag i j hi0 hi (by simpa using hj0.1) (by simpa using hj0.2)
+    rw [SM.assignRowIP, rhs.advance_setLocation hr, hv, List.range_succ_eq_map]
+    simp only [List.map_cons, List.map_map, Nat.cast_zero, add_zero, SM.assignRow]
+    have hm0 := hmiss 0 (by omega)
+    rw [ih (j + 1) (idx + stride)]
+    · congr 1
+      apply List.map_congr_left
+      intro t _
+      simp only [Function.comp, Nat.cast_succ]
+      congr 1; ring
+    · intro t ht
+      have := hj (t + 1) (by omega)
+      push_cast at this
+      constructor <;> omega
+    · intro k hk
+      rw [Raw.set_apply, if_neg]
+      · exact hag k hk
+      · intro heq
+        apply hm0
+        simpa [heq] using hk
+    · intro t ht
+      have := hmiss (t + 1) (by omega)
+      intro hin; apply this
+      have e : m.base + idx + ((t + 1 : Nat) : Int) * stride = m.base + (idx + stride) + (t : Int) * stride := by
+        push_cast; ring
+      rw [e]; exact hin
+
+/-- one row of the in-place assignment equals the same row of the assignment from a snapshot, provided the
+    leaves' data ranges do not meet the target's data range -/
+theorem SM.assignRowOfIP_eq (m : SM) (ha : m.Adm) (rhs : AExpr) (hr : rhs.AllAdm) (hN : rhs.DimIs m.dim) (d0 d : Raw)
+    (hdis : ∀ k, rhs.InRange k → ¬ (m.dataBegin ≤ k ∧ k ≤ m.dataEnd))
+    (hag : ∀ k, rhs.InRange k → d k = d0 k) (i : Nat) (hi : (i : Int) < m.dim) :
+    m.assignRowOfIP rhs d i = m.assignRowOf (rhs.bind d0) d i := by
+  have hi0 : (0 : Int) ≤ i := by omega
+  obtain ⟨hrange, hidx⟩ := row_range_spec m.e ha.wf m.dim m.offset i hi0 hi
+  simp only [SM.assignRowOfIP, SM.assignRowOf]
+  rw [(rhs.bind d0).row_spec (rhs.bind_allAdm hr d0)]
+  apply m.assignRowIP_eq rhs hr m.dim hN d0 i hi0 hi
+  · intro t ht
+    have := (hrange (m.e.get_row_range_j_start i m.dim m.offset + t)).1 ⟨by omega, by omega⟩
+    exact ⟨this.1, this.2.1⟩
+  · exact hag
+  · intro t ht hin
+    have hc := (hrange (m.e.get_row_range_j_start i m.dim m.offset + t)).1 ⟨by omega, by omega⟩
+    have hx := hidx (m.e.get_row_range_j_start i m.dim m.offset + t) (by omega) (by omega)
+    have hs : m.Stores (m.base + m.e.get_row_range_index_start i m.dim m.offset
+        + (t : Int) * m.e.get_row_range_index_stride i m.dim m.offset) :=
+      ⟨i, _, hi0, hi, hc.1, hc.2.1, canonical_pattern _ _ _ hc.2.2, by rw [← hx]; ring⟩
+    exact hdis _ hin (m.stores_in_range ha _ hs)
+
+/-- the in-place assignment equals the assignment from a snapshot of the storage taken before the statement,
+    provided the leaves' data ranges do not meet the target's data range -/
+theorem SM.assignInPlace_eq (m : SM) (ha : m.Adm) (rhs : AExpr) (hr : rhs.AllAdm) (hN : rhs.DimIs m.dim) (d : Raw)
+    (hdis : ∀ k, rhs.InRange k → ¬ (m.dataBegin ≤ k ∧ k ≤ m.dataEnd)) :
+    m.assignInPlace rhs d = m.assign (rhs.bind d) d := by
+  have key : ∀ (rows : List Nat), (∀ i ∈ rows, (i : Int) < m.dim) → ∀ d' : Raw, (∀ k, rhs.InRange k → d' k = d k) →
+      rows.foldl (m.assignRowOfIP rhs) d' = rows.foldl (m.assignRowOf (rhs.bind d)) d' := by
+    intro rows
+    induction rows with
+    | nil => intro _ d' _; rfl
+    | cons i rest ih =>
+      intro hrows d' hag
+      have hi : (i : Int) < m.dim := hrows i (by simp)
+      simp only [List.foldl_cons]
+      rw [m.assignRowOfIP_eq ha rhs hr hN d d' hdis hag i hi]
+      apply ih (fun i' hi' => hrows i' (by simp [hi']))
+      intro k hk
+      have hmiss := (m.assignRowOf_spec ha (rhs.bind d) (rhs.bind_allAdm hr d) d' i hi).2 k (by
+        intro j hj0 hj hc heq
+        apply hdis k hk
+        rw [heq]
+        exact m.stores_in_range ha _ ⟨i, j, by omega, hi, hj0, hj, canonical_pattern _ _ _ hc, rfl⟩)
+      rw [hmiss]; exact hag k hk
+  simp only [SM.assignInPlace, SM.assign]
+  apply key
+  · intro i hi
+    have := List.mem_range.mp hi
+    have := ha.dim_pos
+    omega
+  · intro k _; rfl
+
+theorem SM.packed_adm (e : Engine) (he : WF e) (n : Int) (hn : 1 ≤ n) : (SM.packed e n).Adm :=
+  ⟨he, hn, le_refl _⟩
+
+/-- `M = rhs` with a right-hand side that may read M's own storage: every position `get_row_range` enumerates
+    receives the value the right-hand side had there BEFORE the statement, and no other raw element changes -/
+theorem SM.assignExpr_spec (m : SM) (ha : m.Adm) (rhs : AExpr) (hr : rhs.AllAdm) (hN : rhs.DimIs m.dim) (d : Raw) :
+    (∀ i j : Int, 0 ≤ i → i < m.dim → 0 ≤ j → j < m.dim → Canonical m.e i j →
+        m.assignExpr rhs d (m.base + m.e.index i j m.offset) = (rhs.bind d).val i j) ∧
+    (∀ k : Int, (∀ i j : Int, 0 ≤ i → i < m.dim → 0 ≤ j → j < m.dim → Canonical m.e i j →
+        k ≠ m.base + m.e.index i j m.offset) → m.assignExpr rhs d k = d k) := by
+  by_cases hal : rhs.isAliased m.dataBegin m.dataEnd = true
+  · -- temporary copy in fresh packed storage, then assignment from the copy
+    simp only [SM.assignExpr, if_pos hal]
+    have hc : (SM.packed m.e m.dim).Adm := SM.packed_adm m.e ha.wf m.dim ha.dim_pos
+    obtain ⟨c1, _⟩ := (SM.packed m.e m.dim).assign_raw hc (rhs.bind d) (rhs.bind_allAdm hr d) ⟨fun _ => 0⟩
+    obtain ⟨a1, a2⟩ := m.assign_raw ha
+      (.sm (SM.packed m.e m.dim) ((SM.packed m.e m.dim).assign (rhs.bind d) ⟨fun _ => 0⟩)) hc d
+    refine ⟨fun i j hi0 hi hj0 hj hcan => ?_, a2⟩
+    rw [a1 i j hi0 hi hj0 hj hcan]
+    simp only [RExpr.val]
+    rw [((SM.packed m.e m.dim).get_eq _ i j).1 (canonical_pattern _ _ _ hcan)]
+    exact c1 i j hi0 hi hj0 hj hcan
+  · have hal' : rhs.isAliased m.dataBegin m.dataEnd = false := by simpa using hal
+    simp only [SM.assignExpr, hal', Bool.false_eq_true, if_false]
+    rw [m.assignInPlace_eq ha rhs hr hN d (fun k hk => rhs.not_aliased_range _ _ hal' k hk)]
+    exact m.assign_raw ha (rhs.bind d) (rhs.bind_allAdm hr d) d
 
 end Adept.Special
